@@ -113,7 +113,7 @@ def enum_types(rng):
     defs = [
         ("Plain", {"RED": 0, "GREEN": 1, "BLUE": 2}),
         ("Strs", {"A": "a", "B": "b"}),
-        ("Unhash", {"L": unhash, "D": {"k": 1}, "T": (1, 2)}),
+        ("Unhash", {"L": unhash, "D": {"k": 1}, "T": (1, 2), "M": [3], "E": {"k": 2}}),
         ("NoneVal", {"NONE": None, "ONE": 1}),
         ("Dup", {"X": 1, "Y": 1, "Z": 2}),
         ("Mixed", {"T": True, "ONE": 1, "F": 1.0, "S": "1"}),
@@ -180,6 +180,27 @@ def run(tier: str, rd):
                     rec["enumBackSame"] = False
             rec["_meta"] = {"type": ename, "value": repr(v)[:80], "route": "direct", "out": repr(out)[:80]}
             recs.append(rec)
+    # the result is a function of the value, not of what the type object coerced before: one mutable buffer object, its contents
+    # changed in place between calls on the same long-lived type object (a generator reusing its buffer)
+    for ename, et, mapping in enum_types(rng):
+        names = list(mapping)
+        lbuf, dbuf = [], {}
+        script = [(lbuf, [1, 2]), (lbuf, [3]), (lbuf, [9]), (lbuf, [1, 2]), (lbuf, []), (dbuf, {"k": 1}), (dbuf, {"k": 2}), (dbuf, {"k": 3}), (lbuf, [3]),
+                  (dbuf, {"k": 1}), (lbuf, [3, 4]), (dbuf, {})]
+        for buf, content in script:
+            if isinstance(buf, list):
+                buf[:] = content
+            else:
+                buf.clear()
+                buf.update(content)
+            rec, out = record("Enum", names, buf, et.serialize, et.parse_value)
+            if not rec["err"] and not rec["backErr"]:
+                try:
+                    rec["enumBackSame"] = bool(rec.get("_back") == content)
+                except Exception:  # noqa: BLE001
+                    rec["enumBackSame"] = False
+            rec["_meta"] = {"type": ename, "value": repr(content)[:80] + " (reused buffer)", "route": "direct-reused-buffer", "out": repr(out)[:80]}
+            recs.append(rec)
     # through execution: a leaf position of a response
     fields = {}
     for tname, t in scalars:
@@ -215,6 +236,38 @@ def run(tier: str, rd):
                     except Exception:  # noqa: BLE001
                         rec["enumBackSame"] = False
             rec["_meta"] = {"type": tname, "value": repr(v)[:80], "route": "execute", "python_type": type(v).__name__}
+            recs.append(rec)
+    # ... and the items of a list field whose generator yields one reused buffer
+    from graphql.type import GraphQLList
+    for ename, et, mapping in ets:
+        names = list(mapping)
+        contents = [[1, 2], [3], [1, 2], [9], [3], [], [1, 2]]
+
+        def gen(*_a, contents=contents):
+            buf = []
+            for c in contents:
+                buf[:] = c
+                yield buf
+        lschema = GraphQLSchema(GraphQLObjectType("Query", {"l": GraphQLField(GraphQLList(et), resolve=gen)}))
+        try:
+            res = execute_sync(lschema, parse("{ l }"))
+        except Exception as e:  # noqa: BLE001
+            vd.violation("execute-raises", {"value": "reused buffer list of " + ename}, type(e).__name__)
+            continue
+        errix = {e.path[1] for e in (res.errors or []) if e.path and len(e.path) > 1}
+        items = (res.data or {}).get("l") or [None] * len(contents)
+        for k, c in enumerate(contents):
+            if k in errix or items[k] is None:
+                rec = {"type": "Enum", "enumNames": [[ord(ch) for ch in n] for n in names] or [[0]], "in": describe(c), "err": True, "out": dict(BLANK),
+                       "backErr": False, "back": dict(BLANK), "enumBackSame": True}
+            else:
+                rec, _o = record("Enum", names, c, lambda _v, out=items[k]: out, et.parse_value)
+                if not rec["backErr"]:
+                    try:
+                        rec["enumBackSame"] = bool(rec.get("_back") == c)
+                    except Exception:  # noqa: BLE001
+                        rec["enumBackSame"] = False
+            rec["_meta"] = {"type": "Enum:" + ename, "value": repr(c) + f" (item {k} of a reused buffer)", "route": "execute-reused-buffer", "python_type": "list"}
             recs.append(rec)
     payload = [{k: x for k, x in r.items() if not k.startswith("_")} for r in recs]
     p = common.write_cases(rd, "scalars.json", payload)
